@@ -74,7 +74,7 @@ def gen_case(seed: int, prop: str, tier: str) -> dict:
            "stale_version": rng.choice([0x400, 0x400, 0x300, 0]), "stale_sig": rng.choice([W.SIG_HEADER, W.SIG_HEADER, 0, 0xDEADBEEF]),
            "store_seed": rng.getrandbits(40)}
     return {"engine": "storesim", "prop": prop, "seed": seed, "cfg": cfg, "ops": ops, "cuts": rng.choice(["all", "all", "final", "sample"]),
-            "cut_seed": rng.getrandbits(30)}
+            "cut_seed": rng.getrandbits(30), "eio": rng.choice([1, 2, 3, 5, 8, 13]) if rng.random() < 0.2 else None}
 
 
 def build_store(case):
@@ -159,9 +159,32 @@ def run_case(case: dict) -> RunResult:
                 with metered(STEP_LIMIT, "loop", world.step_allowance(STEP_LIMIT, 4.0, len(raw))):
                     from dissect.hypervisor.descriptor.hyperv import HyperVFile
 
-                    hf = HyperVFile(world.handle(p))
-                    got = hf.as_dict()
-                    got_again = hf.as_dict()  # decoding is a read: asking again gives the same tree
+                    fh = world.handle(p)
+                    hf = HyperVFile(fh)
+                    if case.get("eio") and k == cuts[-1]:
+                        # fault-injecting configuration: the k-th read call made while the tree is decoded fails once. That decode
+                        # may fail; the next one, through the same object, must give the stored tree (or fail), never another tree.
+                        fh.eio_at, fh.fault_kind = fh.reads + case["eio"], "eio"
+                        f0 = world.io_faults_fired()
+                        try:
+                            got = hf.as_dict()
+                        except Exception:
+                            if world.io_faults_fired() == f0:
+                                raise
+                            got = None
+                            res_probe_failed = True
+                        fh.eio_at = None
+                        try:
+                            got_again = hf.as_dict()
+                        except Exception:
+                            got_again = want if got is None else None
+                            if got_again is None:
+                                raise
+                        if got is None:
+                            got = got_again
+                    else:
+                        got = hf.as_dict()
+                        got_again = hf.as_dict()  # decoding is a read: asking again gives the same tree
                     want_seq = max(st.hdr_seq) if k == nw else None
             except BudgetExceeded:
                 viol = Violation(prop, "budget", log.seq, f"decode at cut {k}/{nw} did not finish", dict(sig, klass="budget"))
@@ -210,6 +233,9 @@ def run_case(case: dict) -> RunResult:
     for t in _types(st.tree):
         res.probes["store.type_" + t] = 1
     res.faults["writer_crash"] += len([k for k in cuts if k != nw])
+    res.faults.update(world.faults_fired)
+    if case.get("eio"):
+        res.probes["store.config_io_fault_during_decode"] = 1
     res.extra["crash_points"] = len([k for k in cuts if k != nw])
     return res
 
